@@ -62,7 +62,7 @@ RuleInit(cfg) ==
    since |-> [s \in St |-> 0], online |-> {},
    pub |-> [s \in St |-> NoView], pre |-> [s \in St |-> NoView],
    grant |-> [s \in St |-> NoGrant],
-   offered |-> [s \in St |-> {}], selfOffer |-> [s \in St |-> FALSE], selfSeen |-> -1, envSince |-> 0, pasTaint |-> FALSE, joinedBusy |-> [s \in St |-> FALSE], rogue |-> FALSE, unread |-> 0,
+   offered |-> [s \in St |-> {}], selfOffer |-> [s \in St |-> FALSE], selfSeen |-> -1, envSince |-> 0, pasTaint |-> FALSE, joinedBusy |-> [s \in St |-> FALSE], junkSince |-> [s \in St |-> FALSE], rogue |-> FALSE, unread |-> 0,
    pas |-> NoPass,
    visit |-> [s \in St |-> NoVisit],
    recvPrev |-> [s \in St |-> -1], recvCur |-> [s \in St |-> -1],
@@ -155,10 +155,10 @@ OnTx(rs, e) ==
   LET s == e.st  b == e.b  k == Kind(b)  cfg == rs.cfg  St == rs.St
       last == rs.last  gap == e.t0 - last.t1
       cls == Class(rs, e)
-      \* signature of known finding F17: a claim token sent while another station's telegram is on the wire, as the
-      \* first transmission of a station that came online in the middle of a telegram (it cannot decode what it hears
-      \* and does not count it as bus activity)
-      f17 == k = "token" /\ Da(b) = s /\ Sa(b) = s /\ last.by \notin {-1, s} /\ e.t0 < last.t1 /\ rs.joinedBusy[s]
+      \* signature of known finding F17: a claim token sent while (or within Tid after) another station's telegram is on
+      \* the wire, as the first transmission of a station that came online in the middle of a telegram or has received
+      \* undecodable bytes since its last transmission (it does not count what it hears as bus activity)
+      f17 == k = "token" /\ Da(b) = s /\ Sa(b) = s /\ last.by # s /\ last.t1 > 0 /\ e.t0 <= last.t1 + cfg.tid /\ (rs.joinedBusy[s] \/ rs.junkSince[s])
       single == cfg.mode = "single"         \* one station against a scripted, possibly non-conforming peer
       judged == ~rs.disturbed               \* fault-free premise (C01 C11 C12 C13 C15)
       jring == judged /\ ~single            \* clauses that presuppose conforming partners
@@ -251,7 +251,7 @@ OnTx(rs, e) ==
               \o (IF judged /\ sresp THEN <<"C12.reply.state">> ELSE <<>>)
       (* ---- state update *)
       rs1 == [rs EXCEPT !.last = [by |-> s, t0 |-> e.t0, t1 |-> e.t1, b |-> b, app |-> rs.appsent[s]],
-                        !.rogue = @ \/ rs.unread > 0, !.selfOffer[s] = FALSE, !.selfSeen = -1, !.joinedBusy[s] = FALSE,
+                        !.rogue = @ \/ rs.unread > 0, !.selfOffer[s] = FALSE, !.selfSeen = -1, !.joinedBusy[s] = FALSE, !.junkSince[s] = FALSE,
                         \* telegrams still unread in the PHY buffer will be acted on later: what the wire shows and what the
                         \* station has seen differ, the supervision episode cannot be counted from the wire
                         !.pasTaint = @ \/ rs.unread > 0,
@@ -305,7 +305,10 @@ OnEnvTx(rs, e) ==
                                THEN [@ EXCEPT !.heard = TRUE] ELSE @,
                         \* whatever a scripted peer sends while a pass is supervised ends the episode the monitor can count
                         \* (it cannot know whether the station took it for the successor, for noise, or did not read it yet)
-                        !.pas = NoPass, !.pasTaint = TRUE]
+                        !.pas = NoPass, !.pasTaint = TRUE,
+                        \* undecodable bytes reach the stations: until their next own transmission they may be in the
+                        \* condition of finding F17 (bytes up to the discarded level are not counted as bus activity)
+                        !.junkSince = IF k = "junk" \/ "hidden" \in DOMAIN e THEN [x \in St |-> TRUE] ELSE @]
       rs2 == IF k # "token" THEN rs1
              ELSE LET d == Da(b) sa == Sa(b)
                       w == RotWitness(rs1, sa, d, e.t0)
@@ -359,7 +362,8 @@ OnPoll(rs, e) ==
               \o (IF ~wasReached /\ rs2.reached THEN <<ConvProp(rs) \o ".converge">> ELSE <<>>)
       \* a cadence overrun is reported once: restart the counters
       rs3 == IF cadOk THEN rs2 ELSE [rs2 EXCEPT !.cadBad = FALSE]
-  IN RA(cs, [st |-> s, f17 |-> (becomesReady /\ rs.last.by \notin {-1, s} /\ e.t < rs.last.t1 /\ rs.joinedBusy[s])], rs3, hits)
+  IN RA(cs, [st |-> s, f17 |-> (becomesReady /\ rs.last.by # s /\ rs.last.t1 > 0 /\ e.t <= rs.last.t1 + cfg.tid /\ (rs.joinedBusy[s] \/ rs.junkSince[s])
+                               /\ ToSet(e.post.las) = {s})], rs3, hits)     \* ready through a claim (list reset to itself)
 
 (* ------------------------------------------------------------------ Cb (C15) *)
 OnCb(rs, e) ==
